@@ -38,8 +38,11 @@ LEVEL_NOTE = (
     "content changes; it is violated only if the tampered file verifies (loads, or fails only after verification). Wrong passwords "
     "are ones whose PBKDF2-HMAC key differs (a trailing NUL, or a >64-octet password and its SHA-256, are the same HMAC key by "
     "construction of the format and are not used). The exception "
-    "type of a rejection is recorded, not judged. Text nodes, comments, PIs, xmlns, formatting of Signature, strings longer than "
-    "255 octets and metadata (Project/CreatedBy) are exercised and recorded, not judged."
+    "type of a rejection is recorded, not judged. Signed values longer than 255 octets: the "
+    "writer signs under 5 conventions for the one-octet length (mod 256, saturate, truncate, skip, mod-256-truncate); only if the "
+    "loader accepts the original under one of them are tampered copies (inside / beyond octet 255, original signature) judged and "
+    "must be refused; otherwise the rule is vacuous and counted. Text nodes, comments, PIs, xmlns, formatting of Signature "
+    "and metadata (Project/CreatedBy) are exercised and recorded, not judged."
 )
 SHARDS = {"quick": 1, "thorough": 16}
 TIMEOUT = {"quick": 120, "thorough": 3000}
@@ -706,7 +709,9 @@ def corner_case(ctx, env, number: int, label: str, project: W.Project, order: st
     if project.backbone is not None and project.backbone.key is not None and not project.interfaces \
             and not project.group_keys and not project.devices:
         ctx.count("corner_backbone_key_without_any_other_entry")
-    sweep = (not ctx.quick) or number % 10 == ctx.seed % 10
+    if label.startswith("pad-"):
+        ctx.count("corner_secrets_ending_in_their_pad_octet", 8)
+    sweep = not label.startswith("pad-") and ((not ctx.quick) or number % 10 == ctx.seed % 10)
     run_case(ctx, env, "corner", label, root, style, project, rng, sweep=sweep)
 
 
@@ -729,22 +734,88 @@ def ets_case(ctx, env, name: str, data: bytes) -> None:
     run_case(ctx, env, "ets", name, root, style, project, rng)
 
 
-def long_string_probe(ctx, env) -> None:
-    """A keyring whose project name needs more than 255 octets: recorded only (ETS behaviour unknown)."""
-    rng = random.Random(f"C31/{ctx.seed}/long")
-    project = W.random_project(rng, size=3)
-    project.name = "Ü" * 140
-    root = W.build_tree(project, rng)
-    outcome, _ = env.load(W.serialize(root, W.Style()), project.password)
-    ctx.extra.setdefault("unsigned_content_outcomes", {})
-    ctx.extra["unsigned_content_outcomes"][f"valid-keyring-with-280-octet-project-name:{outcome}"] = 1
+def _find_long(root: W.Node, where) -> W.Node:
+    elem, idx, _attr = where
+    if elem == "Keyring":
+        return root
+    found = [n for _, n in root.walk() if n.name == elem]
+    return found[idx or 0]
+
+
+def long_value_rule(ctx, env) -> None:
+    """Signed values longer than 255 octets (one length octet: what ETS signs is unknown).
+
+    Needs no knowledge of ETS: the file is signed under every plausible convention for the length octet; if the loader
+    accepts the original under a convention, that value is signed content, and every copy with the value changed (inside
+    or entirely beyond octet 255) that keeps the original signature must be refused.
+    """
+    ctx.extra.setdefault("long_value_outcomes", {})
+    rec = ctx.extra["long_value_outcomes"]
+    for label, project, where in W.long_value_projects():
+        rng = random.Random(f"C31/long/{label}")
+        root = W.build_tree(project, rng)
+        pwhash = W.password_hash(project.password)
+        attr = where[2]
+        value = _find_long(root, where).get(attr)
+        assert len(value.encode("utf-8")) > 255
+        # index of the first character that starts beyond octet 255
+        beyond = next(i for i in range(len(value)) if len(value[:i].encode("utf-8")) > 255)
+        tampers = [("inside", "replace-first-char", "Z" + value[1:]),
+                   ("inside", "replace-char-100", value[:100] + ("Z" if value[100] != "Z" else "Y") + value[101:]),
+                   ("beyond", "replace-last-char", value[:-1] + ("7" if value[-1] != "7" else "8")),
+                   ("beyond", "replace-char-just-beyond", value[:beyond + 2] + ("Z" if value[beyond + 2] != "Z" else "Y") + value[beyond + 3:]),
+                   ("beyond", "append-char", value + "9"),
+                   ("beyond", "append-256-chars", value + "9" * 256),
+                   ("beyond", "drop-last-char", value[:-1]),
+                   ("beyond", "cut-after-octet-255", value[:beyond]),
+                   ("beyond", "cut-to-just-above-255", value[:beyond + 1]),
+                   ("beyond", "swap-two-tail-chars", value[:-3] + value[-1] + value[-2] + value[-3])]
+        if attr == "Senders":
+            parts = value.split(" ")
+            tampers += [("beyond", "last-sender-replaced", " ".join(parts[:-1] + ["1.1.66"])),
+                        ("beyond", "sender-appended", value + " 1.1.66"),
+                        ("beyond", "last-sender-removed", " ".join(parts[:-1]))]
+        for conv in W.LENGTH_CONVENTIONS:
+            W.sign(root, pwhash, conv)
+            style = W.Style()
+            outcome, res = env.load(W.serialize(root, style), project.password)
+            ctx.count("long_value_originals_loaded_attempts")
+            rec[f"{label}/{conv}:{outcome}"] = rec.get(f"{label}/{conv}:{outcome}", 0) + 1
+            ctx.distinct(("long", label, conv, outcome))
+            if outcome != "loaded":
+                ctx.count("long_value_original_refused")
+                continue
+            ctx.count("long_value_original_accepted")
+            wit = {"source": "long-value", "case": label, "convention": conv, "password": project.password, "attr": attr}
+            for fld, expected, got in compare_content(project, res)[:2]:
+                ctx.violation(f"long-value-content-mismatch-{fld}", {**wit, "field": fld, "expected": expected, "got": got},
+                              f"long-value keyring {label} ({conv}) is accepted but {fld} = {got!r}, file contains {expected!r}"[:400])
+            for region, how, new in tampers:
+                if new == value:
+                    continue
+                m = root.copy()
+                _find_long(m, where).set(attr, new)
+                mdata = W.serialize(m, style)
+                o2, _ = env.load(mdata, project.password)
+                ctx.count("long_value_tampers_judged")
+                ctx.distinct(("long-tamper", label, conv, region, how, o2))
+                if o2 in ("loaded", "postfail"):
+                    ctx.violation(f"tampered-long-value-{region}-octet-255-verifies-{conv}-signature",
+                                  {**wit, "how": how, "region": region, "old_octets": len(value.encode()), "new_tail": new[-40:],
+                                   "outcome": o2, "file_b64": base64.b64encode(mdata).decode()},
+                                  f"keyring {label}: {attr} ({len(value.encode())} octets) is accepted when signed with the '{conv}' length "
+                                  f"convention, and the same signature still verifies after {how} ({region} octet 255): {o2}"[:500])
+                else:
+                    ctx.count("long_value_tampers_refused")
+    if not ctx.counters.get("long_value_original_accepted"):
+        ctx.count("long_value_rule_vacuous_nothing_accepted")
 
 
 def run(ctx):
     ctx.rule = ("one case = one keyring file (generated from a per-index seeded random project, or an ETS export) loaded untouched, with "
                 "wrong passwords and with every single mutation; distinct = (source, mutation kind, element, attribute, how, judged, outcome) "
                 "and (project shape, serialisation style)")
-    ctx.require("corner_keyrings", "corner_backbone_key_without_any_other_entry", "valid_files_loaded", "secrets_decrypted", "keys_decrypted", "sender_lists_compared", "wrong_password_rejected",
+    ctx.require("long_value_originals_loaded_attempts", "corner_secrets_ending_in_their_pad_octet", "corner_keyrings", "corner_backbone_key_without_any_other_entry", "valid_files_loaded", "secrets_decrypted", "keys_decrypted", "sender_lists_compared", "wrong_password_rejected",
                 "tamper_mutations", "tamper_element-name", "tamper_attr-name", "tamper_attr-value", "tamper_swap-siblings",
                 "tamper_delete-element", "tamper_insert-element", "tamper_move-attr", "tamper_rejected_InvalidSecureConfiguration")
     files = ets_files()
@@ -769,7 +840,7 @@ def run(ctx):
                 else:
                     ets_case(ctx, env, what[0], what[1])
             if ctx.shard == 0:
-                long_string_probe(ctx, env)
+                long_value_rule(ctx, env)
     finally:
         env.close()
     ctx.assumptions.append("the signed content is what the ETS signature walk covers: element names, attributes other than xmlns/Signature "
@@ -782,6 +853,8 @@ def replay(ctx, witness):
         with memo_hash():
             if witness.get("source") == "generated":
                 gen_case(ctx, env, int(witness["case"]))
+            elif witness.get("source") == "long-value":
+                long_value_rule(ctx, env)
             elif witness.get("source") == "corner":
                 for i, (label, project, order) in enumerate(W.corner_projects()):
                     if label == witness.get("case"):
